@@ -72,9 +72,13 @@ enum Route {
     CarOfList,
     ViaSymbolString,
     StringAppend,
+    /// constant dotted tail of a quasiquote template inside a procedure defined earlier
+    QuasiDottedTail,
+    /// constant element of a quasiquote template inside a procedure defined earlier
+    QuasiElement,
 }
 
-const ROUTES: [Route; 10] = [
+const ROUTES: [Route; 12] = [
     Route::Literal,
     Route::QuotedListElement,
     Route::QuotedVectorElement,
@@ -85,12 +89,21 @@ const ROUTES: [Route; 10] = [
     Route::CarOfList,
     Route::ViaSymbolString,
     Route::StringAppend,
+    Route::QuasiDottedTail,
+    Route::QuasiElement,
 ];
 
 fn needs_literal(r: Route) -> bool {
     matches!(
         r,
-        Route::Literal | Route::QuotedListElement | Route::QuotedVectorElement | Route::MacroOutput | Route::EvalQuoted | Route::CarOfList
+        Route::Literal
+            | Route::QuotedListElement
+            | Route::QuotedVectorElement
+            | Route::MacroOutput
+            | Route::EvalQuoted
+            | Route::CarOfList
+            | Route::QuasiDottedTail
+            | Route::QuasiElement
     )
 }
 
@@ -110,6 +123,18 @@ fn produce(route: Route, name: &str, uniq: usize, aux: &mut Vec<String>) -> Stri
         Route::EvalConstructed => format!("(eval (list 'quote (string->symbol {})))", strlit(name)),
         Route::CarOfList => format!("(car (list '{} 1))", name),
         Route::ViaSymbolString => format!("(string->symbol (symbol->string (string->symbol {})))", strlit(name)),
+        Route::QuasiDottedTail => {
+            aux.push(format!("(define (tagger{} x) `(,x . {}))", uniq, name));
+            format!("(cdr (tagger{} 1))", uniq)
+        }
+        Route::QuasiElement => {
+            aux.push(format!("(define (wrap{} x) `({} ,x #({} ,x)))", uniq, name, name));
+            if uniq % 2 == 0 {
+                format!("(car (wrap{} 1))", uniq)
+            } else {
+                format!("(vector-ref (car (cdr (cdr (wrap{} 1)))) 0)", uniq)
+            }
+        }
         Route::StringAppend => {
             // split the name at a char boundary
             let chars: Vec<char> = name.chars().collect();
@@ -453,4 +478,8 @@ pub fn replay(case: &Value) -> Result<Option<Violation>, String> {
         }),
         _ => None,
     })
+}
+
+pub fn rerun(_tier: Tier, seed: u64, run: u64) -> Option<Violation> {
+    one_run(seed, run).violation
 }
